@@ -245,6 +245,45 @@ func checkC17(c *Check) {
 			c.Ob("meta-has-factory", cn+":"+it.Name, registered[it.Name], it.Pos, "every registered item has a factory constructor")
 		}
 		g.registryVsSchemaText(c, cn, byName)
+		// the registry's three views (ordered list, by name, by tag) describe the same items: the generated Fill*
+		// functions store an item into all of them together, after the "already registered" test (in the per-namespace
+		// layout every item is registered twice; a by-tag store before that test would point at an item that is in
+		// neither of the other views and has no constructor)
+		for fn, fi := range g.funcs {
+			if fi.Pkg.Name != "metainternal" || fi.Decl.Body == nil || (fn.Name() != "FillObject" && fn.Name() != "FillFunction") {
+				continue
+			}
+			ir := g.ir(fi)
+			guard, byName2, byTag, ordered := -1, -1, -1, -1
+			for i, n := range ir.Body {
+				switch n := n.(type) {
+				case *IfN:
+					if len(returnsOf(n.Then)) == 1 && len(n.Then) == 1 && guard < 0 {
+						guard = i
+					}
+					walkBlock(n.Then, nil, func(m Node, _ []Guard) {
+						if as, ok := m.(*AssignN); ok && len(as.LHS) == 1 && strings.HasPrefix(as.LHS[0], "G:ItemsByTag[") && as.RHS[0] == "val" {
+							byTag = i
+						}
+					})
+				case *AssignN:
+					if len(n.LHS) == 1 && len(n.RHS) == 1 && n.RHS[0] == "val" {
+						if strings.HasPrefix(n.LHS[0], "G:ItemsByName[") {
+							byName2 = i
+						}
+						if strings.HasPrefix(n.LHS[0], "G:ItemsByTag[") {
+							byTag = i
+						}
+					}
+				case *CallN:
+					if n.Builtin == "append" && len(n.Results) == 1 && n.Results[0] == "G:ItemsOrdered" {
+						ordered = i
+					}
+				}
+			}
+			ok := guard >= 0 && byName2 > guard && byTag > guard && ordered > guard
+			c.Ob("registry-views-filled-together", cn+":"+fn.Name(), ok, posStr(g.co.Fset, fi.Decl.Pos()), fmt.Sprintf("already-registered test at statement %d; stores into ItemsOrdered %d, ItemsByName %d, ItemsByTag %d (all must follow the test)", guard, ordered, byName2, byTag))
+		}
 	})
 	c.Set("programs", programs)
 	c.Floor("registry-name-unique", 300)
@@ -256,6 +295,7 @@ func checkC17(c *Check) {
 	c.Floor("registry-boxed-starts-with-tag", 150)
 	c.Floor("registry-functionness", 300)
 	c.Floor("registry-lists-every-tl2-declaration", 40)
+	c.Floor("registry-views-filled-together", 10)
 	c.Floor("registry-annotations", 150)
 	c.Floor("registry-function-vs-schema", 150)
 	c.Floor("registry-explicit-tag-verbatim", 30)
